@@ -7,6 +7,8 @@ import (
 	"context"
 	"fmt"
 	"os"
+	"os/exec"
+	"path/filepath"
 	"strconv"
 	"strings"
 	"sync"
@@ -414,8 +416,9 @@ func main() {
 	for range jobs {
 		<-done
 	}
-	r.Finish("server + hostile peers in a child process per (configuration, batch): the C03 request lattice (every member of every method's request x {absent, null, bool, int, float, string, array, object}, envelope faults, non-JSON / truncated bodies, 10000-deep and 1 MiB values, unsolicited responses with every id type), HTTP-level faults (paths, verbs, headers, GET/DELETE with every session-id class, also on servers without sessions), interleaved with well-formed calls from an independent client every 8 inputs; after each batch canaries on the same, a fresh and the independent connection, net/http ErrorLog scan for recovered panics, goroutines with library frames at quiescence after N/2 and N inputs. Thorough adds truncation at every offset, bit flips and random bytes. Distinct = (configuration, input class, answer class) that conformed.",
-		[]string{"'no sequence of bytes' is sampled", "memory exhaustion by unbounded bodies is not driven", "goroutine growth is judged on counts at quiescence, never on time", "coverage-guided fuzzing (go test -fuzz) is not part of this check; the lattice is enumerated instead"})
+	nativeFuzz(r)
+	r.Finish("server + hostile peers in a child process per (configuration, batch): the C03 request lattice (every member of every method's request x {absent, null, bool, int, float, string, array, object}, envelope faults, non-JSON / truncated bodies, 10000-deep and 1 MiB values, unsolicited responses with every id type), HTTP-level faults (paths, verbs, headers, GET/DELETE with every session-id class, also on servers without sessions), interleaved with well-formed calls from an independent client every 8 inputs; after each batch canaries on the same, a fresh and the independent connection, net/http ErrorLog scan for recovered panics, goroutines with library frames at quiescence after N/2 and N inputs. Thorough adds truncation at every offset, bit flips and random bytes. Then Go native fuzzing (coverage-guided, iteration-bounded) over the three entry points, seeded with the lattice; a concurrent storm of 6 hostile peers per configuration. Distinct = (configuration, input class, answer class) that conformed.",
+		[]string{"'no sequence of bytes' is sampled", "memory exhaustion by unbounded bodies is not driven", "goroutine growth is judged on counts at quiescence, never on time", "coverage-guided fuzzing (go test -fuzz, iteration-bounded) runs over ServeHTTP of the Streamable server, the legacy message endpoint and one stdio line, seeded with the lattice"})
 }
 
 func tail(s string, n int) string {
@@ -423,4 +426,59 @@ func tail(s string, n int) string {
 		return s[len(s)-n:]
 	}
 	return s
+}
+
+// nativeFuzz runs the coverage-guided Go fuzz targets of harness/fuzz over the three server entry points,
+// iteration-bounded (never time-bounded). A failing input is a violation; its file is moved to the out directory.
+func nativeFuzz(r *vh.Run) {
+	dir := filepath.Join(vh.VerifDir, "harness")
+	targets := []struct {
+		name  string
+		quick int
+		thor  int
+	}{{"FuzzStreamablePost", 30000, 600000}, {"FuzzStdioLine", 3000, 60000}, {"FuzzLegacyMessage", 15000, 300000}}
+	for _, t := range targets {
+		n := r.Pick(t.quick, t.thor)
+		cmd := exec.Command("go", "test", "-tags", "verif", "-run", "^$", "-fuzz", "^"+t.name+"$", "-fuzztime", fmt.Sprintf("%dx", n), "./fuzz/")
+		cmd.Dir = dir
+		out, err := cmd.CombinedOutput()
+		text := string(out)
+		execs := 0
+		for _, l := range strings.Split(text, "\n") {
+			if i := strings.Index(l, "execs: "); i >= 0 {
+				fmt.Sscanf(l[i:], "execs: %d", &execs)
+			}
+		}
+		r.Count("fuzz_execs_"+t.name, int64(execs))
+		r.Eval(execs)
+		if err == nil && strings.Contains(text, "PASS") {
+			r.Distinct("native-fuzz|" + t.name)
+			continue
+		}
+		if strings.Contains(text, "Failing input written to") || strings.Contains(text, "--- FAIL") {
+			witness := map[string]interface{}{"output_tail": tail(text, 3000)}
+			if i := strings.Index(text, "Failing input written to "); i >= 0 {
+				rest := strings.TrimSpace(text[i+len("Failing input written to "):])
+				if j := strings.IndexAny(rest, "\n "); j > 0 {
+					rest = rest[:j]
+				}
+				src := filepath.Join(dir, "fuzz", rest)
+				if b, e := os.ReadFile(src); e == nil {
+					witness["failing_input_file"] = string(b)
+					dst := filepath.Join(r.OutDir, "fuzz-"+t.name+"-"+filepath.Base(rest))
+					os.WriteFile(dst, b, 0o644)
+					os.Remove(src)
+					witness["saved_as"] = dst
+				}
+			}
+			site := "oracle"
+			if strings.Contains(text, "panic:") {
+				site = "panic|" + vh.FirstLibFrame(text)
+			}
+			r.Violation(fmt.Sprintf("C06|native-fuzz|%s|%s", t.name, site), fmt.Sprintf("coverage-guided fuzzing of %s found a failing input", t.name), witness)
+			continue
+		}
+		r.Inconclusive(fmt.Sprintf("native fuzz target %s could not be run: %v: %s", t.name, err, tail(text, 400)))
+	}
+	os.RemoveAll(filepath.Join(dir, "fuzz", "testdata"))
 }
